@@ -110,10 +110,11 @@ def degeneric(s):
 class Graph(object):
     """A (possibly flag-refined) view of a body's CFG. Nodes are ints; node_bb maps to MIR blocks."""
 
-    def __init__(self, body, flags=None, init=None, pinned=None):
+    def __init__(self, body, flags=None, init=None, pinned=None, hook=None):
         self.body = body
         self.flags = list(flags or [])
         self.pinned = dict(pinned or {})
+        self.hook = hook     # hook(bb, stmt_index, stmt) -> bool | None: value of a non-constant flag definition
         self.node_of = {}
         self.nodes = []      # (bb, valuation)
         self.succ = []
@@ -125,13 +126,19 @@ class Graph(object):
         if not self.flags:
             return val
         val = list(val)
-        for s in blk.stmts:
+        for si, s in enumerate(blk.stmts):
             if s.kind == "assign" and s.place.is_local() and s.place.local in self.flags:
                 i = self.flags.index(s.place.local)
                 b = s.rv.ops[0].const_bool() if (s.rv.k == "use" and s.rv.ops) else None
                 if b is None and s.rv.k == "use" and s.rv.ops and s.rv.ops[0].place is not None and s.rv.ops[0].place.is_local() \
                         and s.rv.ops[0].place.local in self.flags:
                     b = val[self.flags.index(s.rv.ops[0].place.local)]
+                if b is None and s.rv.k == "unop" and s.rv.j.get("op") == "Not" and s.rv.ops[0].place is not None \
+                        and s.rv.ops[0].place.is_local() and s.rv.ops[0].place.local in self.flags:
+                    x = val[self.flags.index(s.rv.ops[0].place.local)]
+                    b = None if x is None else (not x)
+                if b is None and self.hook is not None:
+                    b = self.hook(blk.idx, si, s)
                 if b is None and s.place.local in self.pinned:
                     b = self.pinned[s.place.local]
                 val[i] = b
@@ -755,16 +762,34 @@ class Analyzer(object):
                         if src.local in tmps and len(self.defs.get(s2.place.local, [])) == 1:
                             tmps.add(s2.place.local)
                             grew = True
+                    # a call that receives the borrow and returns something that still borrows (`chunks_mut`, `iter_mut`, `map`):
+                    # its result is a derived borrow
+                    t2 = b.term
+                    if t2.kind == "call" and t2.dest is not None and t2.dest.is_local() and t2.dest.local not in tmps \
+                            and any(a.place is not None and a.place.local in tmps for a in t2.args):
+                        ty = body.locals[t2.dest.local].get("s", "")
+                        if "&" in ty or "'" in ty:
+                            tmps.add(t2.dest.local)
+                            grew = True
                 if not grew:
                     break
             sites = []
             for b in body.blocks:
                 if b.cleanup or b.term.kind != "call":
                     continue
-                for a in b.term.args:
-                    if a.place is not None and a.place.local in tmps:
-                        sites.append((b.idx, b.term.callee["def"] if b.term.callee else "<indirect>"))
-                        break
+                if any(a.place is not None and a.place.local in tmps for a in b.term.args):
+                    sites.append((b.idx, b.term.callee["def"] if b.term.callee else "<indirect>"))
+                    # what a closure passed alongside does with the borrowed elements (`.for_each(|x| f(x))`)
+                    for a in b.term.args:
+                        if a.place is None or not a.place.is_local() or self.prog is None:
+                            continue
+                        ty = body.locals[a.place.local]
+                        ck = ty.get("closure")
+                        cb = self.prog.bodies.get(ck) if ck else None
+                        if cb is not None:
+                            for _, ct in cb.calls():
+                                if ct.callee and not cb.is_noise(ct):
+                                    sites.append((b.idx, ct.callee["def"]))
             self._memo[key] = sites
         out = set()
         for bb, name in sites:
